@@ -109,13 +109,21 @@ UnknownLayout == <<F("Rest")>>
 LayoutOf(t) == IF t \in KnownTypes THEN Layout[t] ELSE UnknownLayout
 
 \* EDNS options (RFC 6891 6.1.2 framing; data layouts per option RFC)
-OptCode == [NSID |-> 3, ECS |-> 8, COOKIE |-> 10, KEEPALIVE |-> 11, PADDING |-> 12, EDE |-> 15]
+OptCode == [NSID |-> 3, DAU |-> 5, DHU |-> 6, N3U |-> 7, ECS |-> 8, EXPIRE |-> 9,
+            COOKIE |-> 10, KEEPALIVE |-> 11, PADDING |-> 12, CHAIN |-> 13, KEYTAG |-> 14,
+            EDE |-> 15]
 OptLayout == [
   NSID      |-> <<F("Rest")>>,                                   \* RFC 5001 2.3
+  DAU       |-> <<F("Rest")>>,                                   \* RFC 6975 2: ALG-CODEs, one octet each
+  DHU       |-> <<F("Rest")>>,
+  N3U       |-> <<F("Rest")>>,
   ECS       |-> <<F("U16"), F("U8"), F("U8"), F("Rest")>>,       \* RFC 7871 6
+  EXPIRE    |-> <<F("Rest")>>,                                   \* RFC 7314 2: empty or 4 octets
   COOKIE    |-> <<F("A8"), F("Rest")>>,                          \* RFC 7873 4: 8 + (0 | 8..32)
   KEEPALIVE |-> <<F("Rest")>>,                                   \* RFC 7828 3.1: empty or 2 octets
   PADDING   |-> <<F("Rest")>>,                                   \* RFC 7830 3
+  CHAIN     |-> <<NameP>>,                                       \* RFC 7901 4: uncompressed name
+  KEYTAG    |-> <<F("Rest")>>,                                   \* RFC 8145 4.1: 16-bit key tags
   EDE       |-> <<F("U16"), F("Rest")>>                          \* RFC 8914 2
 ]
 
@@ -348,6 +356,190 @@ FieldEq(f, a, b) ==
                              (IF a.gt = 3 THEN NameEq(a.gw, b.gw) ELSE a.gw = b.gw)
     [] OTHER -> a = b
 RdEq(t, v1, v2) == \A i \in 1..Len(LayoutOf(t)) : FieldEq(LayoutOf(t)[i], v1[i], v2[i])
+
+--------------------------------------------------------------------------
+(* EDNS option VALUES, as the option types' constructors and the OPT        *)
+(* builders see them (the rows of OptLayout describe the option DATA).      *)
+(*                                                                          *)
+(* A value is a record with o = the option's mnemonic and                   *)
+(*   NSID PADDING  data    octets                                           *)
+(*   DAU DHU N3U   algs    algorithm numbers, ONE octet each (RFC 6975 2)   *)
+(*   ECS           fam (1 IPv4, 2 IPv6), src, scope (prefix lengths),       *)
+(*                 addr (4 / 16 octets)                          RFC 7871 6 *)
+(*   EXPIRE        some, secs (4 octets, zero when absent)       RFC 7314 2 *)
+(*   COOKIE        client (8 octets), some, server (<<>> if none) RFC 7873 4 *)
+(*   KEEPALIVE     some, t (units of 100 ms, 0 when absent)    RFC 7828 3.1 *)
+(*   CHAIN         name                                          RFC 7901 4 *)
+(*   KEYTAG        data    octets, read as 16-bit key tags     RFC 8145 4.1 *)
+(*   EDE           code, text (UTF-8; RFC 8914 2: EXTRA-TEXT may be empty,  *)
+(*                 an absent and an empty text are the same value)          *)
+(*                                                                          *)
+(* Constructor ARGUMENTS have the same shape plus, for KEEPALIVE, `sub` (the *)
+(* milliseconds beyond t * 100 ms when the timeout is given as a duration). *)
+(* OptArgOk says which arguments the constructors accept, OptNorm is what   *)
+(* they DOCUMENT to do with them.  ClientSubnet::new: "limit the prefix     *)
+(* lengths given to a number meaningful for the address family ... set all  *)
+(* bits not covered by the source prefix length in the address to zero";    *)
+(* ServerCookie::from_octets: 8 to 32 octets; IdleTimeout from a duration:  *)
+(* whole units of 100 ms that fit 16 bits; KeyTag: an even number of        *)
+(* octets; every option's data at most 65535 octets.                        *)
+
+OptKinds == <<"NSID", "DAU", "DHU", "N3U", "ECS", "EXPIRE", "COOKIE", "KEEPALIVE",
+              "PADDING", "CHAIN", "KEYTAG", "EDE">>
+OptMnemonicOf(code) == IF \E o \in DOMAIN OptCode : OptCode[o] = code
+                       THEN CHOOSE o \in DOMAIN OptCode : OptCode[o] = code
+                       ELSE "OTHER"
+
+AddrBits(fam)   == IF fam = 1 THEN 32 ELSE 128
+AddrOctets(fam) == IF fam = 1 THEN 4 ELSE 16
+PrefixOctets(n) == (n + 7) \div 8
+Zeros(n)        == [i \in 1..n |-> 0]
+KeepBits(b, k)  == (b \div Pow2(8 - k)) * Pow2(8 - k)             \* leftmost k of 8 bits, k in 1..7
+MaskBits(a, n)  == [i \in 1..Len(a) |->                            \* leftmost n bits of an octet tuple
+                     IF 8 * i <= n THEN a[i]
+                     ELSE IF 8 * (i - 1) >= n THEN 0
+                     ELSE KeepBits(a[i], n - 8 * (i - 1))]
+BitAt(a, j)     == (a[(j \div 8) + 1] \div Pow2(7 - (j % 8))) % 2   \* bit j, 0-based from the left
+
+OptArgOk(a) ==
+  CASE a.o \in {"NSID", "PADDING"}   -> Len(a.data) <= 65535
+    [] a.o \in {"DAU", "DHU", "N3U"} -> Len(a.algs) <= 65535
+    [] a.o = "ECS"       -> TRUE                                   \* "very forgiving"
+    [] a.o = "EXPIRE"    -> TRUE
+    [] a.o = "COOKIE"    -> Len(a.client) = 8 /\ (a.some => Len(a.server) >= 8 /\ Len(a.server) <= 32)
+    [] a.o = "KEEPALIVE" -> a.some => a.t <= 65535
+    [] a.o = "CHAIN"     -> ValidAbs(a.name)
+    [] a.o = "KEYTAG"    -> Len(a.data) % 2 = 0 /\ Len(a.data) <= 65535
+    [] a.o = "EDE"       -> Len(a.text) + 2 <= 65535
+
+OptNorm(a) ==
+  CASE a.o = "ECS" ->
+         LET src == Min(a.src, AddrBits(a.fam))
+         IN [o |-> "ECS", fam |-> a.fam, src |-> src, scope |-> Min(a.scope, AddrBits(a.fam)),
+             addr |-> MaskBits(a.addr, src)]
+    [] a.o = "EXPIRE"    -> [o |-> "EXPIRE", some |-> a.some, secs |-> IF a.some THEN a.secs ELSE Zeros(4)]
+    [] a.o = "COOKIE"    -> [o |-> "COOKIE", client |-> a.client, some |-> a.some,
+                             server |-> IF a.some THEN a.server ELSE <<>>]
+    [] a.o = "KEEPALIVE" -> [o |-> "KEEPALIVE", some |-> a.some, t |-> IF a.some THEN a.t ELSE 0]
+    [] OTHER -> a
+
+\* a well-formed value, said without reference to OptNorm
+OptValOk(v) ==
+  CASE v.o = "ECS" -> /\ v.fam \in {1, 2} /\ Len(v.addr) = AddrOctets(v.fam)
+                      /\ v.src <= AddrBits(v.fam) /\ v.scope <= AddrBits(v.fam)
+                      /\ \A j \in v.src..(AddrBits(v.fam) - 1) : BitAt(v.addr, j) = 0
+    [] v.o = "COOKIE"    -> /\ Len(v.client) = 8 /\ v.some = (v.server # <<>>)
+                            /\ (v.some => Len(v.server) >= 8 /\ Len(v.server) <= 32)
+    [] v.o = "KEEPALIVE" -> v.t \in 0..65535 /\ (~v.some => v.t = 0)
+    [] v.o = "EXPIRE"    -> Len(v.secs) = 4 /\ (~v.some => v.secs = Zeros(4))
+    [] OTHER -> OptArgOk(v)
+
+\* the value as the fields of its OptLayout row
+OptFields(v) ==
+  CASE v.o \in {"NSID", "PADDING", "KEYTAG"} -> <<v.data>>
+    [] v.o \in {"DAU", "DHU", "N3U"}  -> <<v.algs>>
+    [] v.o = "ECS"       -> <<EncU16(v.fam), <<v.src>>, <<v.scope>>, SubSeq(v.addr, 1, PrefixOctets(v.src))>>
+    [] v.o = "EXPIRE"    -> <<IF v.some THEN v.secs ELSE <<>> >>
+    [] v.o = "COOKIE"    -> <<v.client, v.server>>
+    [] v.o = "KEEPALIVE" -> <<IF v.some THEN EncU16(v.t) ELSE <<>> >>
+    [] v.o = "CHAIN"     -> <<v.name>>
+    [] v.o = "EDE"       -> <<EncU16(v.code), v.text>>
+OptData(v) == ComposeFields(OptLayout[v.o], OptFields(v))
+\* its length, from the option RFCs alone
+OptDataLen(v) ==
+  CASE v.o \in {"NSID", "PADDING", "KEYTAG"} -> Len(v.data)
+    [] v.o \in {"DAU", "DHU", "N3U"}  -> Len(v.algs)
+    [] v.o = "ECS"       -> 4 + PrefixOctets(v.src)
+    [] v.o = "EXPIRE"    -> IF v.some THEN 4 ELSE 0
+    [] v.o = "COOKIE"    -> 8 + Len(v.server)
+    [] v.o = "KEEPALIVE" -> IF v.some THEN 2 ELSE 0
+    [] v.o = "CHAIN"     -> WireLenAbs(v.name)
+    [] v.o = "EDE"       -> 2 + Len(v.text)
+OptTlv(v) == [k |-> OptCode[v.o], v |-> OptData(v)]
+
+\* reading option data back into a value
+NoOptVal == [ok |-> FALSE]
+OptSome(v) == [ok |-> TRUE, v |-> v]
+OptValueOf(o, data) ==
+  LET r == ParseOpt(o, data) IN
+  IF ~r.ok THEN NoOptVal ELSE
+  LET f == r.val IN
+  CASE o \in {"NSID", "PADDING"}    -> OptSome([o |-> o, data |-> f[1]])
+    [] o \in {"DAU", "DHU", "N3U"}  -> OptSome([o |-> o, algs |-> f[1]])
+    [] o = "KEYTAG"    -> IF Len(f[1]) % 2 = 0 THEN OptSome([o |-> o, data |-> f[1]]) ELSE NoOptVal
+    [] o = "ECS"       ->
+         LET fam == U16At(f[1], 1)  src == f[2][1]  scope == f[3][1] IN
+         IF fam \notin {1, 2} THEN NoOptVal
+         ELSE IF src > AddrBits(fam) \/ Len(f[4]) # PrefixOctets(src) THEN NoOptVal
+         ELSE LET addr == f[4] \o Zeros(AddrOctets(fam) - Len(f[4])) IN
+              IF MaskBits(addr, src) # addr THEN NoOptVal
+              ELSE OptSome([o |-> o, fam |-> fam, src |-> src, scope |-> scope, addr |-> addr])
+    [] o = "EXPIRE"    -> IF Len(f[1]) = 0 THEN OptSome([o |-> o, some |-> FALSE, secs |-> Zeros(4)])
+                          ELSE IF Len(f[1]) = 4 THEN OptSome([o |-> o, some |-> TRUE, secs |-> f[1]])
+                          ELSE NoOptVal
+    [] o = "COOKIE"    -> IF f[2] = <<>> \/ (Len(f[2]) >= 8 /\ Len(f[2]) <= 32)
+                          THEN OptSome([o |-> o, client |-> f[1], some |-> f[2] # <<>>, server |-> f[2]])
+                          ELSE NoOptVal
+    [] o = "KEEPALIVE" -> IF Len(f[1]) = 0 THEN OptSome([o |-> o, some |-> FALSE, t |-> 0])
+                          ELSE IF Len(f[1]) = 2 THEN OptSome([o |-> o, some |-> TRUE, t |-> U16At(f[1], 1)])
+                          ELSE NoOptVal
+    [] o = "CHAIN"     -> OptSome([o |-> o, name |-> f[1]])
+    [] o = "EDE"       -> OptSome([o |-> o, code |-> U16At(f[1], 1), text |-> f[2]])
+
+\* what the accessors of a value show (names as wire octets, key tags as numbers)
+OptView(v) ==
+  CASE v.o = "CHAIN"  -> [o |-> "CHAIN", name |-> ToWireAbs(v.name)]
+    [] v.o = "KEYTAG" -> [o |-> "KEYTAG", tags |-> [i \in 1..(Len(v.data) \div 2) |-> U16At(v.data, 2 * i - 1)]]
+    [] OTHER -> v
+
+(* An OPT record assembled from constructor arguments q (in push order): a  *)
+(* refused argument adds nothing; the record holds the data of the          *)
+(* normalised values; reading it back gives their views, and the typed      *)
+(* getters the first option of each kind.                                   *)
+OptAccepted(q) == SelectSeq(q, OptArgOk)
+OptVals(q)     == [i \in 1..Len(OptAccepted(q)) |-> OptNorm(OptAccepted(q)[i])]
+OptTlvs(q)     == [i \in 1..Len(OptVals(q)) |-> OptTlv(OptVals(q)[i])]
+OptRead(tlvs)  == [i \in 1..Len(tlvs) |->
+                    LET r == OptValueOf(OptMnemonicOf(tlvs[i].k), tlvs[i].v)
+                    IN IF r.ok THEN OptView(r.v) ELSE [o |-> "unreadable"]]
+OptFirsts(views) ==     \* in the order of OptKinds, kinds that are present only
+  LET present == SelectSeq(OptKinds, LAMBDA o : \E i \in 1..Len(views) : views[i].o = o)
+  IN [j \in 1..Len(present) |-> views[CHOOSE i \in 1..Len(views) :
+         views[i].o = present[j] /\ \A h \in 1..(i - 1) : views[h].o # present[j]]]
+RdExpOk(x, v) == [parse |-> "ok", wire |-> ComposeRd(x, v), canon |-> CanonRd(x, v),
+                  len |-> RdLen(x, v), known |-> x \in KnownTypes, issues |-> <<>>]
+OptBuildExp(q) ==
+  [steps |-> [i \in 1..Len(q) |->
+                IF OptArgOk(q[i])
+                THEN LET v == OptNorm(q[i])
+                     IN [built |-> OptView(v), data |-> OptData(v), len |-> OptDataLen(v)]
+                ELSE [refused |-> TRUE]],
+   rdata  |-> ComposeRd("OPT", <<OptTlvs(q)>>),
+   iter   |-> OptRead(OptTlvs(q)),
+   first  |-> OptFirsts(OptRead(OptTlvs(q))),
+   issues |-> <<>>,
+   rd     |-> RdExpOk("OPT", <<OptTlvs(q)>>)]
+
+(* What the implementation does today where it deviates                     *)
+(* (D_understood_odd_len): the constructors of one value disagree           *)
+(* (from_sec_algs accepts, from_octets refuses), the option walk ends at    *)
+(* the first option it cannot read; what the walk and the getters do after  *)
+(* that is not judged (the executor stops reading back there).              *)
+OddAlgs(a) == a.o \in {"DAU", "DHU", "N3U"} /\ Len(a.algs) % 2 = 1
+OptBuildOdd(q) == {i \in 1..Len(OptVals(q)) : OddAlgs(OptVals(q)[i])}
+OptBuildExpOddDev(q) ==
+  LET vals == OptVals(q)
+      k == MinOf(OptBuildOdd(q))
+  IN [OptBuildExp(q) EXCEPT
+        !.steps = [i \in 1..Len(q) |->
+                     IF OptArgOk(q[i]) /\ OddAlgs(q[i])
+                     THEN [built |-> OptView(q[i]), data |-> OptData(q[i]),
+                           len |-> OptDataLen(q[i]), disagree |-> TRUE]
+                     ELSE @[i]],
+        !.iter = [i \in 1..k |-> IF i < k THEN OptView(vals[i]) ELSE [o |-> "unreadable"]],
+        !.first = <<>>,
+        !.issues = <<"unreadable">>,
+        !.rd = [@ EXCEPT !.issues = <<"unreadable">>]]
 
 \* reverse lookup for recorded traces (numeric type codes)
 MnemonicOf(code) == IF \E t \in KnownTypes : TypeCode[t] = code
